@@ -677,14 +677,16 @@ impl<'a> BenchContext<'a> {
                 .reserve(self.options.sample_count.unwrap_or(1) as usize);
         }
 
+        // Measure (once per process) before the clock for `max_time` starts,
+        // so that calibration is not charged to the first benchmark.
+        let bench_overheads = timer.bench_overheads();
+
         let skip_ext_time = self.options.skip_ext_time.unwrap_or_default();
         let initial_start = if skip_ext_time {
             None
         } else {
             Some(Timestamp::start(timer_kind))
         };
-
-        let bench_overheads = timer.bench_overheads();
 
         while {
             // Conditions for when sampling is over:
